@@ -185,7 +185,14 @@ func runCase(t *testing.T, p *plan, rec *ev.Recorder) string {
 	v := judge(p, e, o)
 	if v.sig != "" {
 		pj, _ := json.Marshal(p)
-		return fmt.Sprintf("SIG=C16/%s %s\nplan=%s\norigin received:\n%s\nclient received:\n%s", v.sig, v.detail, pj, clip(o.OriginRaw), clip(o.ClientRaw))
+		ps := string(pj)
+		if d := os.Getenv("C16_DUMP"); d != "" {
+			_ = os.WriteFile(d, []byte(fmt.Sprintf("%s\n%s\n--- origin\n%s\n--- client\n%s\n", v.sig, ps, o.OriginRaw, o.ClientRaw)), 0o644)
+		}
+		if len(ps) > 4000 {
+			ps = ps[:4000] + "...(clipped; the rapid fail file replays the whole case)"
+		}
+		return fmt.Sprintf("SIG=C16/%s %s\norigin received:\n%s\nclient received:\n%s\nplan=%s", v.sig, v.detail, clip(o.OriginRaw), clip(o.ClientRaw), ps)
 	}
 	if rec != nil {
 		for _, k := range v.known {
@@ -201,8 +208,8 @@ func runCase(t *testing.T, p *plan, rec *ev.Recorder) string {
 }
 
 func clip(b []byte) string {
-	if len(b) > 1500 {
-		return fmt.Sprintf("%q...(%d bytes)", b[:1500], len(b))
+	if len(b) > 500 {
+		return fmt.Sprintf("%q...(%d bytes)", b[:500], len(b))
 	}
 	return fmt.Sprintf("%q", b)
 }
@@ -251,5 +258,62 @@ func TestReplayPlan(t *testing.T) {
 	}
 	if msg := runCase(t, &p, nil); msg != "" {
 		t.Fatal(msg)
+	}
+}
+
+// ---- minimal reproductions of the defects found (regressions once fixed)
+
+func req1(method, path string, hdr ...kv) reqPlan {
+	return reqPlan{Method: method, Authority: "example.com", HostField: " example.com", HostName: "Host", Path: path, Hdr: hdr, FrameName: "Content-Length"}
+}
+
+func resp1(status, n int) respPlan {
+	return respPlan{Status: status, Reason: "OK", Body: bodySpec{Kind: bodyCL, Seed: uint64(n) + 5, Len: n}, FrameName: "Content-Length", HeadCL: -1, TruncateAt: -1}
+}
+
+var recFind = ev.New("C16", "findings", "fixed minimal plans that reproduce each defect found by proxy-sequences (plus their unaffected twins); judged by the same model")
+
+func findingPlans() map[string]*plan {
+	m := map[string]*plan{}
+	// a request without User-Agent
+	m[sigUA] = &plan{Window: 1, ClientAbort: -1, Reqs: []reqPlan{req1("GET", "/a", kv{"Accept", " */*"})}, Resps: []respPlan{resp1(200, 5)}}
+	// a trailer field nominated by Connection
+	r := req1("POST", "/b", kv{"User-Agent", " h"}, kv{"Connection", " X-Hop"}, kv{"Trailer", " X-T, X-Hop"})
+	r.Body = bodySpec{Kind: bodyChunked, Seed: 7, Len: 10, Chunks: []int{4, 6}, Trailers: []kv{{"X-T", "tv"}, {"X-Hop", "secret"}}}
+	r.FrameName = "Transfer-Encoding"
+	m[sigTrailer] = &plan{Window: 1, ClientAbort: -1, Reqs: []reqPlan{r}, Resps: []respPlan{resp1(200, 5)}}
+	// Connection: close on the request + an interim response from the origin
+	r = req1("POST", "/c", kv{"User-Agent", " h"}, kv{"Connection", " close"}, kv{"Expect", " 100-continue"})
+	r.Body = bodySpec{Kind: bodyCL, Seed: 7, Len: 10}
+	r.Expect = true
+	rp := resp1(200, 5)
+	rp.Interim = []interimPlan{{Status: 100, Reason: "Continue"}}
+	rp.InterimEarly = true
+	m[sig1xxClose] = &plan{Window: 1, ClientAbort: -1, Reqs: []reqPlan{r}, Resps: []respPlan{rp}}
+	return m
+}
+
+// TestFindings replays the minimal reproduction of every defect this check found. A defect that
+// is listed in known_findings.json is reported as a known hit; one that is not listed fails;
+// after a fix in /repo the plans simply hold.
+func TestFindings(t *testing.T) {
+	plans := findingPlans()
+	for _, sig := range []string{sigUA, sigTrailer, sig1xxClose} {
+		p := plans[sig]
+		e := model(p)
+		o := execute(t, p)
+		v := judge(p, e, o)
+		if v.sig != "" {
+			t.Errorf("SIG=C16/%s %s\norigin received:\n%s\nclient received:\n%s", v.sig, v.detail, clip(o.OriginRaw), clip(o.ClientRaw))
+			continue
+		}
+		for _, k := range v.known {
+			recFind.KnownHit(k)
+		}
+		lab := "held:" + sig
+		if len(v.known) > 0 {
+			lab = "reproduced:" + sig
+		}
+		recFind.Case(sig, false, lab)
 	}
 }
